@@ -302,19 +302,26 @@ def run_batch(case, ctx):
             batches = [np.round(b / sc_, 1) for b in batches]
             batches = [batches[0]] + [b.astype(np.float32).astype(float) for b in batches[1:]]
             ctx.count("histories_with_single_precision_test_batches")
+        # a pinned baseline: the very same array object is handed to set_reference again and again (after alarms, or just to re-baseline)
+        pin = batches[0] if (rng.random() < 0.25 and not locals().get("idt") and not f32) else None
+        if pin is not None:
+            ctx.count("histories_with_a_pinned_baseline_object")
         calls = []
-        explicit_first = rng.random() < 0.5
+        explicit_first = (rng.random() < 0.5) or pin is not None
         for i, X in enumerate(batches):
             if i == 0 and explicit_first:
                 calls.append(("set_reference", X))
                 continue
             r = rng.random()
-            if r < 0.06 and i > 1:
+            if pin is not None and r < 0.25 and i > 1:
+                calls.append(("set_reference", pin))
+            elif r < 0.06 and i > 1:
                 calls.append(("set_reference", X))
             elif r < 0.12 and i > 1:
                 calls.append(("update", calls[-1][1].copy()))  # the previous batch again
             else:
                 calls.append(("update", X))
+    pin = locals().get("pin")
     idt = locals().get("idt") or case.get("literal", {}).get("dtype")
     f32 = locals().get("f32") or bool(case.get("literal", {}).get("float32_tests"))
     det = gen.construct(KdqTreeBatch, kw, case, ctx)
@@ -327,7 +334,7 @@ def run_batch(case, ctx):
         for i, (op, X) in enumerate(calls):
             np.random.seed(rngtap.seed_for(case.get("seed_key", case["id"]), i))
             mark = tap.mark()
-            getattr(det, op)(X.astype(idt) if idt else (X.astype(np.float32) if (f32 and i > 0) else X.copy()))
+            getattr(det, op)(X if (pin is not None and X is pin) else (X.astype(idt) if idt else (X.astype(np.float32) if (f32 and i > 0) else X.copy())))
             ev = tap.since(mark)
             log.append([op, X.tolist() if X.size <= 200 else "omitted(%s)" % (X.shape,)])
             base = dict(params=kw, calls=log, step=i, dtype=idt, float32_tests=f32)
@@ -342,7 +349,9 @@ def run_batch(case, ctx):
             elif model is None:
                 built = X  # first update without a reference installs it
             if built is not None:
+                old_crit = (model.crit, model.ref_data) if (model is not None and getattr(model, "ref_data", None) is not None) else None
                 model = RefModel(built, kw["count_ubound"], kw["cutpoint_proportion_lbound"])
+                model.ref_data = np.array(built, dtype=float, copy=True)
                 rerr = model.reconcile(det)
                 if rerr:
                     ctx.violation("C09/batch/reference_tree", "call %d (%s): %s" % (i, op, rerr), **base)
@@ -350,6 +359,16 @@ def run_batch(case, ctx):
                 if model.public:
                     ctx.count("reference_trees_with_other_shape_than_own_builder")
                 dists, err = model.check_bootstrap(ev, kw["bootstrap_samples"], len(built))
+                if err and not any(e[0] == "choice" for e in ev) and op == "set_reference" and old_crit is not None and \
+                        old_crit[1].shape == model.ref_data.shape and np.array_equal(old_crit[1], model.ref_data):
+                    # re-baselining on exactly the data of the current reference without a new bootstrap: the critical value already
+                    # held is a (1 - alpha) quantile of that reference's resampling distribution - nothing in the property asks for a redraw
+                    model.crit = old_crit[0]
+                    ctx.count("critical_value_kept_for_identical_reference")
+                    if det.drift_state is not None:
+                        ctx.violation("C09/batch/state_after_reference", "call %d installs a reference but drift_state is %r" % (i, det.drift_state), **base)
+                        return
+                    continue
                 if err and err.startswith("SCHEME"):
                     ctx.mark_inconclusive(err)
                     return
